@@ -30,6 +30,30 @@ SPAWN_UW = [(r"vh_popen::make_streams", 4), (r"drop_glue::<\[", 5), (r"vh_popen:
 
 REG = {}
 
+
+class PyItem:
+    """a check implemented by a python module exposing run(tier, seed) -> result dict
+    (SMT encodings generated from the MIR, extracted cfg(windows) code); such modules
+    replay their own counterexamples natively before returning status "fail"."""
+
+    def __init__(self, name, path, tier):
+        self.name = name
+        self.path = path
+        self.tier = tier
+        self.kind = "proof"
+
+    def run(self, seed):
+        import importlib.util
+        spec = importlib.util.spec_from_file_location("vmod_" + self.name, self.path)
+        mod = importlib.util.module_from_spec(spec)
+        spec.loader.exec_module(mod)
+        res = mod.run(self.tier, seed)
+        res.setdefault("harness", self.name)
+        res.setdefault("kind", "proof")
+        res["self_replayed"] = True
+        return res
+
+
 MODS = {"popen": "popen::vh_popen::", "popen_os": "popen::os::vh_popen_os::", "posix": "posix::vh_posix::",
         "comm": "communicate::vh_comm::", "comm_raw": "communicate::raw::vh_comm_raw::",
         "exec": "builder::exec::vh_exec::", "pipeline": "builder::pipeline::vh_pipeline::", "builder": "builder::vh_builder::"}
@@ -220,4 +244,27 @@ REG["C17"] = Spec(
     outside="cwd of 384+ bytes (std allocates a CString for long paths -- in std, not in the crate); deallocation is not counted; allocation inside libc calls",
     assumptions=SPAWN_ASSUME + ["observer: std::alloc::{alloc,alloc_zeroed,realloc} stubbed by counting wrappers delegating to System (h_alloc_witness proves Vec/Box/CString/Rc/Vec-growth move the counter in this build)"],
     explanation="the model fork snapshots an allocation counter in child role; every later model call (each child-side step, exec, the error report write, _exit) asserts the counter has not moved",
+)
+
+
+REG["C19"] = Spec(
+    quick=[PyItem("c19_smt", "/verif/enc/c19/run.py", "quick")],
+    thorough=[PyItem("c19_smt", "/verif/enc/c19/run.py", "thorough")],
+    encodes=["builder::exec::Exec::display_escape", "display_escape::nice_char"],
+    bounds={"quick": "every Unicode string (code points 1..0x10FFFF minus surrogates) of length 0..=4", "thorough": "length 0..=6"},
+    outside="joining of words (to_cmdline_lossy / Debug: command first, arguments in order separated by single spaces, stages joined by ' | ') -- Kani cannot execute the String formatting in useful time (measured in round 0) and the Exec-based harnesses exhaust the SAT back end; non-Unicode OsStr; to_string_lossy; reserved words in command position",
+    assumptions=["Iterator::all, str::chars, str::replace, fmt::format and Cow behave as documented (std is not translated); the composed model is validated on every run against the compiled source text of display_escape on the repo's own test strings plus 300 seeded random strings",
+                 "POSIX sh word parsing as encoded by the automaton (unquoted / single-quoted / backslash); every accepted word is additionally evaluated with the real /bin/sh during validation"],
+    explanation="nice_char is translated statement by statement from the nightly's MIR into a bit-vector predicate; display_escape is recognised structurally and its constants extracted; the negated round-trip property over bounded code-point sequences is discharged by z3 and cross-checked with cvc5; a sat answer is replayed against the compiled function and the real sh",
+)
+REG["C20"] = Spec(
+    quick=[PyItem("c20", "/verif/enc/c20/run.py", "quick")],
+    thorough=[PyItem("c20", "/verif/enc/c20/run.py", "thorough")],
+    encodes=["popen::os::assemble_cmdline (cfg(windows), source text extracted)", "popen::os::append_quoted (cfg(windows), source text extracted)"],
+    bounds={"quick": "argument vectors of 1..=2 arguments, each 0..=3 UTF-16 units, every unit over all 65536 values", "thorough": "up to 3 arguments x up to 4 units (selected length vectors)"},
+    outside="execution on Windows, CreateProcess itself; longer arguments (same loop bodies)",
+    assumptions=["argv[0] contains no double quote and, when it needs quoting, does not end in a backslash (program-name parsing rule does not unescape)",
+                 "under Kani, Vec in the extracted text is a fixed-capacity array-backed model (overflow is an assertion failure); the native replayer runs the same text on std::Vec",
+                 "reference parser written from the documented Microsoft CRT / CommandLineToArgvW rules; an independent Python transcription must agree with it on Microsoft's published examples"],
+    explanation="the cfg(windows) functions are extracted textually on every run, compiled against a UTF-16 shim and model-checked by Kani/CBMC: parse_ms(assemble_cmdline(argv)) == argv for symbolic contents; counterexamples are replayed natively against an independent parser",
 )
